@@ -1,10 +1,14 @@
 import Moyo.Proofs.Identify
+import Moyo.Proofs.IdentifySolve
+import Moyo.Proofs.IdentifyTables
+import Moyo.Proofs.IdentifyTableRows
 /-
 Stage S5 (space-group identification) — theorems about the stage model `S5.identify`
 (`Moyo/Model/StageIdentify.lean`), which is tied to `identify::space_group::SpaceGroup::new` by the
 stage correspondence of checks/pipe.py (`stages=["s5"]`: every generated case and the exhaustive table
 run reproduce number, Hall number and `linear` exactly and the origin shift to 1e-9 modulo 1).
 -/
+set_option maxRecDepth 100000
 namespace Moyo.C03Stages
 open Moyo Moyo.S5 Moyo.Generated
 
@@ -37,5 +41,187 @@ theorem identify_sound (ops : List OpQ) (setting : SettingQ) (eps : Rat) (sg : S
       obtain ⟨hh, he, hd, hg⟩ := tryHall_ok hdet hi2
       exact ⟨by rw [hh]; exact hmem, he, hd, hg⟩
     · simp at h
+
+/-- Non-vacuity of `identify_sound`: the model identifies the tabulated operations of Hall number 7
+(`P 2c`, P2₁ unique axis c) as type 4 in the Spglib setting 6 (`P 2yb`), through a correction matrix. -/
+example : (identify (tableOps 7) .spglib (1 / 100000000)).toOption.map (fun sg => (sg.number, sg.hall, sg.linear)) =
+    some (4, 6, ⟨-1, 0, -1, 0, 0, -1, 0, -1, 0⟩) := by
+  decide +kernel
+
+/-- **Soundness of `solve_mod1`**: a returned `x` satisfies `‖a x − b‖ ≤ eps` in every component
+modulo 1 (this is the final residual test of the code). -/
+theorem solve_mod1_sound {m : Nat} (a : IMat m 3) (b : Vector Rat m) (eps : Rat) (x : Q3)
+    (h : solveMod1 a b eps = some x) :
+    ∀ i : Fin m, ratAbs (ratWrap (rowDot a i x - b[i])) ≤ eps :=
+  (residualOK_iff a b eps x).1 (solveMod1_residualOK h)
+
+/-- Non-vacuity: the unit test of `solve_mod1` (inconsistent system) is refused, a consistent
+variant is solved. -/
+example :
+    solveMod1 (IMat.ofFlat 6 3 #[-2, 0, 0, 0, -2, 0, 0, 0, -2, -2, 0, 0, 0, 0, 0, 0, 0, -2])
+      #v[0, 0, 0, 0, 1 / 2, 0] (1 / 100000) = none ∧
+    solveMod1 (IMat.ofFlat 6 3 #[-2, 0, 0, 0, -2, 0, 0, 0, -2, -2, 0, 0, 0, 0, 0, 0, 0, -2])
+      #v[1 / 2, 0, 0, 1 / 2, 0, 0] (1 / 100000) = some ⟨-1 / 4, 0, 0⟩ := by
+  decide +kernel
+
+/- Full completeness statement (NOT proved): if some `x₀` satisfies `‖a x₀ − b‖_{mod 1, ∞} ≤ δ` then
+`solve_mod1 a b eps` succeeds for `eps ≥ c(a)·δ` with an explicit constant `c(a)` depending on the
+Smith transformation matrices.  Proved below: the exact case `δ = 0`. -/
+
+/-- **Completeness of `solve_mod1` for exactly solvable systems** (partial: exact solutions only).
+If `a x₀ − b` is an integer vector for some rational `x₀`, then for every tolerance `eps ≥ 0` the
+procedure returns some `x`, and `a x − b` is again an integer vector.  Uses `D = L a R`
+(`C15.snf_decomp`), unimodularity of `L` and `R` and diagonality of `D`. -/
+theorem solve_mod1_complete_partial {m : Nat} (hm : 3 ≤ m) (a : IMat m 3) (b : Vector Rat m) (eps : Rat)
+    (heps : 0 ≤ eps) (x0 : Q3) (hx0 : ∀ i : Fin m, ∃ n : Int, rowDot a i x0 - b[i] = n) :
+    ∃ x, solveMod1 a b eps = some x ∧ ∀ i : Fin m, ∃ n : Int, rowDot a i x - b[i] = n :=
+  solveMod1_complete hm a b eps heps x0 hx0
+
+/-- Non-vacuity: a singular 6×3 system (`2_1` screw along `c` plus a redundant block) with the exact
+solution `x₀ = (1/4, 0, 1/3)`. -/
+example : ∃ x, solveMod1 (IMat.ofFlat 6 3 #[-2, 0, 0, 0, -2, 0, 0, 0, 0, -2, 0, 0, 0, -2, 0, 0, 0, 0])
+    #v[1 / 2, 0, 0, -1 / 2, 1, 0] 0 = some x := by
+  have hden : ∀ i : Fin 6,
+      (rowDot (IMat.ofFlat 6 3 #[-2, 0, 0, 0, -2, 0, 0, 0, 0, -2, 0, 0, 0, -2, 0, 0, 0, 0]) i ⟨1 / 4, 0, 1 / 3⟩ -
+        (#v[1 / 2, 0, 0, -1 / 2, 1, 0] : Vector Rat 6)[i]).den = 1 := by decide +kernel
+  obtain ⟨x, hx, _⟩ := solve_mod1_complete_partial (by decide) _ _ 0 (le_refl _) ⟨1 / 4, 0, 1 / 3⟩
+    (fun i => ⟨_, (Rat.coe_int_num_of_den_eq_one (hden i)).symm⟩)
+  exact ⟨x, hx⟩
+
+/-! ### Table theorem -/
+
+/- Full statement (NOT kernel-decided; covered by the exhaustive correspondence run of every check,
+harness command `s5-table`, where the compiled model and the Rust code agree on all rows):
+`∀ h, 1 ≤ h → h ≤ 530 → tableRow h = true`.
+The kernel evaluates the Smith normal forms of the 9k×9 Sylvester systems lazily and without sharing
+(≈10 s and several GB each), which rules out all but the lowest-symmetry rows. -/
+
+/-- **Identification of the tabulated groups (partial: Hall numbers 1–8).**  For the triclinic and
+primitive monoclinic P2 / P2₁ settings the model applied to `primitive_traverse` of `h` returns
+`hallTable[h-1].number` with the Hall number of the convention under `Spglib` and `Standard`, and
+returns `h` itself under `HallNumber(h)`. -/
+theorem identify_tables_partial (h : Nat) (h1 : 1 ≤ h) (h8 : h ≤ 8) :
+    ∃ e, hallEntry? h = some e ∧
+      (∃ sg, identify (tableOps h) .spglib tableEps = .ok sg ∧ sg.number = e.number ∧
+        sg.hall = spglibHallNumbers.getD (e.number - 1) 0) ∧
+      (∃ sg, identify (tableOps h) .standard tableEps = .ok sg ∧ sg.number = e.number ∧
+        sg.hall = standardHallNumbers.getD (e.number - 1) 0) ∧
+      (∃ sg, identify (tableOps h) (.hall h) tableEps = .ok sg ∧ sg.number = e.number ∧ sg.hall = h) := by
+  have key := tableRows_1_8
+  rw [List.all_eq_true] at key
+  have hrow := key (h - 1) (List.mem_range.2 (by omega))
+  have e1 : h - 1 + 1 = h := by omega
+  rw [e1] at hrow
+  unfold tableRow at hrow
+  split at hrow
+  · simp at hrow
+  · rename_i e he
+    simp only [Bool.and_eq_true] at hrow
+    have okIs_iff : ∀ (r : Except Err SpaceGroup) (n k : Nat), okIs r n k = true →
+        ∃ sg, r = .ok sg ∧ sg.number = n ∧ sg.hall = k := by
+      intro r n k hr
+      unfold okIs at hr
+      split at hr
+      · rename_i sg
+        simp only [Bool.and_eq_true, beq_iff_eq] at hr
+        exact ⟨sg, rfl, hr.1, hr.2⟩
+      · simp at hr
+    exact ⟨e, he, okIs_iff _ _ _ hrow.1.1, okIs_iff _ _ _ hrow.1.2, okIs_iff _ _ _ hrow.2⟩
+
+/-- Non-vacuity: row 7 (`P 2c`) is type 4; Spglib/Standard choose Hall number 6, the request 7 is honoured. -/
+example : (hallEntry? 7).map (·.number) = some 4 ∧ spglibHallNumbers.getD 3 0 = 6 ∧ tableRow 7 = true := by
+  decide +kernel
+
+/-! ### Requested Hall numbers (C10) -/
+
+/-- **A requested Hall setting is honoured or refused**: under `Setting::HallNumber(h)` an `Ok` answer
+carries exactly the requested Hall number (and, by `identify_sound`, a determinant-one transformation
+onto the tabulated generators of `h`); there is no silent replacement by another setting. -/
+theorem hall_request_sound (ops : List OpQ) (h : Int) (eps : Rat) (sg : SpaceGroup)
+    (hok : identify ops (.hall h) eps = .ok sg) :
+    (sg.hall : Int) = h ∧ sg.linear.det = 1 ∧ ∃ e, hallEntry? sg.hall = some e ∧ sg.number = e.number := by
+  obtain ⟨hm, he, hd, _⟩ := identify_sound ops (.hall h) eps sg hok
+  simp only [settingHallNumbers, List.mem_singleton] at hm
+  exact ⟨hm, hd, he⟩
+
+/-- A Hall number outside `1..=530` is reported as `UnknownHallNumberError` (after the point group
+has been identified — `PointGroup::new(..)?` comes first in the code), never a panic. -/
+theorem hall_out_of_range_err (ops : List OpQ) (h : Int) (eps : Rat) (pg : PointGroup)
+    (hpg : pointGroupNew (ops.map (·.rot)) = .ok pg) (hr : h < 1 ∨ 530 < h) :
+    identify ops (.hall h) eps = .error .unknownHall := by
+  unfold identify identifyFrom
+  rw [hpg]
+  simp only [settingHallNumbers, List.findSome?_cons, List.findSome?_nil]
+  have : tryHall ops (.hall h) eps pg h = some (.error .unknownHall) := by
+    unfold tryHall
+    split
+    · rfl
+    · have hsz : hallTable.size = 530 := by decide +kernel
+      have hn : hallEntry? h.toNat = none := by
+        unfold hallEntry?
+        rw [if_neg (by omega)]
+        exact Array.getElem?_eq_none (by omega)
+      simp only [hn]
+  rw [this]
+
+/-- Non-vacuity: the hypotheses are met by the operations of Hall number 7 and the request 531. -/
+example : (match identify (tableOps 7) (.hall 531) (1 / 100000000) with
+      | .error .unknownHall => true
+      | _ => false) = true ∧
+    (pointGroupNew ((tableOps 7).map (·.rot))).toOption.map (·.arith) = some 3 := by
+  decide +kernel
+
+/-! ### Rotation types -/
+
+/-- **Rotation-type table.**  The ten (trace, det) arms of `identify_rotation_type` are pairwise
+distinct and occupy the ten counter slots; the 32 histogram arms are pairwise distinct (so the
+first-match semantics of the `match` is irrelevant); and they are exhaustive on the crystallographic
+point groups of the tables: for each of the 32 geometric-class representatives (conventional basis)
+and each of the 73 arithmetic-class representatives (primitive basis — the matrices
+`PointGroup::new` actually meets, up to unimodular conjugation, which preserves trace and
+determinant) every rotation has a type and the histogram selects exactly the class of the group. -/
+theorem rotation_type_table :
+    (rotTypes.map fun x => (x.1, x.2.1)).Nodup ∧ rotTypes.map (·.2.2) = List.range 10 ∧ geoHist.Nodup ∧
+    (∀ k, k < 32 → rotRowOK (geoRepHall.getD k 0) false k = true) ∧
+    (∀ a, 1 ≤ a → a ≤ 73 → ∃ name, arithGeoName? a = some name ∧
+      rotRowOK (arithRepHall.getD (a - 1) 0) true (geoNames.idxOf name) = true) := by
+  refine ⟨by decide, by decide, by decide, ?_, ?_⟩
+  · intro k hk
+    have := geoRows_ok
+    unfold geoRows at this
+    rw [List.all_eq_true] at this
+    exact this k (List.mem_range.2 hk)
+  · intro a h1 h2
+    have := arithRows_ok
+    unfold arithRows at this
+    rw [List.all_eq_true] at this
+    have h := this (a - 1) (List.mem_range.2 (by omega))
+    have e : a - 1 + 1 = a := by omega
+    rw [e] at h
+    split at h
+    · simp at h
+    · rename_i name hn
+      exact ⟨name, hn, h⟩
+
+/-- Non-vacuity: the fourfold rotation about `z` has type slot 8 (`Rotation4`), a matrix of infinite
+order (trace 4) has none, and the full cubic group `Oh` (48 rotations) is row 31. -/
+example : rotType? ⟨0, -1, 0, 1, 0, 0, 0, 0, 1⟩ = some 8 ∧ rotType? ⟨2, 1, 0, 1, 1, 0, 0, 0, 1⟩ = none ∧
+    (groupRots 517 false).map List.length = some 48 ∧ rotRowOK 517 false 31 = true := by
+  decide +kernel
+
+/-- Every Hall symbol of the table has at least one primitive generator, so the linear system of
+`match_origin_shift` has at least three rows (`solve_mod1` never indexes out of bounds). -/
+theorem gens_nonempty : ∀ h, 1 ≤ h → h ≤ 530 → ∃ g gs, hallPrimGens? h = some (g :: gs) := by
+  have key := gensRows_ok
+  unfold gensRows at key
+  intro h h1 h2
+  rw [List.all_eq_true] at key
+  have := key (h - 1) (List.mem_range.2 (by omega))
+  have e : h - 1 + 1 = h := by omega
+  rw [e] at this
+  split at this
+  · rename_i g gs hg
+    exact ⟨g, gs, hg⟩
+  · simp at this
 
 end Moyo.C03Stages
